@@ -55,6 +55,17 @@ Correspondence (every run, against the working tree of /repo):
   EVERY match of `PartialMatcher(prune_auto=False)` of that very step (and the set from the matches the reactor was handed; no
   result that no match gives; no exception inside the pruning).  Finding F30: before /repo 0cd96bf the partial matcher pre-pruned
   by the multiset of estimated host orbits and lost distinct reactions (regress/C11/f30_partial_host_orbit_pruning.json).
+* the pruning routine against its model (gate `model-prune`, in every reactor stream, above all `reactor-partial`): in every step with
+  >= 2 raw matches the matches `SynReactor._prune_by_rule_automorphisms` keeps are compared, as ordered lists, with the Lean model
+  `ReactorInv.pruneWithCap` (driver command `rinv.prune_partial`) on the same inputs - the pattern nodes, the automorphisms of the rule on
+  them (enumerated afresh with the same `nx` GraphMatcher call the routine makes, serialised as harness/props/c05.py does for `rinv.prune`),
+  the raw matches in the order the routine saw them, PARTIAL ones included: once for what `reactor.mappings` kept (default bound 5040) and
+  once per direct call with `max_group` in {0, |group| - 1, |group|} (the documented fall-back above the bound, and the bound itself).  The
+  model follows the routine literally (a match that lacks a pattern node has no key and is passed through; keys compared as `repr` strings;
+  KeyError / ValueError are outcomes), theorems `C11.prunePartial_*`, `C11.pruneWithCap_spec`.  A difference is classified by the
+  specification `rinv.prune_spec` (`PruneSpec`: sub-list, every raw match kept or related to a kept one; a partial match is related to
+  nothing, so it must be kept): violated -> violation with the failing history; met (the routine prunes less, or picks other
+  representatives) -> the correspondence impl == model is reported as broken without a spec-violating input.
 * representation and scale (streams `repr`, `repr-session`, `repr-dedup`, run last): labels that are EQUAL under Python `==` stored under
   different types within one graph - int / float / numpy.int64 / numpy.float64 / numpy.int32 / numpy.float32, str / numpy.str_, also
   inside tuple-valued labels; every occurrence drawn, exactly ONE occurrence, or a "parsed" part next to a part "added by hand" - on the
@@ -95,6 +106,16 @@ THEOREMS = [
     "SynKit.Aut.C11.full_partial",
     "SynKit.Aut.C11.pruning_clause_model",
     "SynKit.Aut.C11.full_model",
+    "SynKit.Aut.C11.prunePartial_sublist",
+    "SynKit.Aut.C11.prunePartial_covers",
+    "SynKit.Aut.C11.prunePartial_keeps_lacking",
+    "SynKit.Aut.C11.prunePartial_total",
+    "SynKit.Aut.C11.prunePartial_spec",
+    "SynKit.Aut.C11.prunePartial_reaction_set",
+    "SynKit.Aut.C11.prunePartial_reaction_set_on",
+    "SynKit.Aut.C11.pruneWithCap_spec",
+    "SynKit.Aut.C11.prunePartial_no_error",
+    "SynKit.Aut.C11.pruning_clause_partial_model",
 ]
 
 NK = ["element", "charge"]
@@ -1337,6 +1358,51 @@ def _renumber_injective(rsmi, seed):
     return out
 
 
+PRUNE_MAX_GROUP, PRUNE_MAX_RAW = 60, 200
+
+
+def _prune_record(reactor, pattern, raw, kept, prune):
+    """Inputs and outputs of the pruning routine for the model comparison (`rinv.prune_partial`): the pattern nodes, the rule's
+    automorphisms restricted to them - enumerated afresh with the very GraphMatcher call `_prune_by_rule_automorphisms` makes, serialised as
+    harness/props/c05.py serialises them for `rinv.prune` -, the raw matches in the order the routine saw them (partial ones included), what
+    the reactor kept under the default bound, and what direct calls keep under bounds at and around the group size.  None: not encodable
+    (ids that are no naturals) or beyond the size bounds."""
+    import networkx as nx
+
+    def nat(x):
+        return isinstance(x, int) and not isinstance(x, bool) and x >= 0
+
+    keep = list(pattern.nodes())
+    rcg = reactor.rule.rc.raw
+    if len(raw) > PRUNE_MAX_RAW or not all(nat(x) for x in keep) or not all(nat(x) for x in rcg.nodes()) \
+            or not all(nat(a) and nat(b) for m in raw for a, b in m.items()):
+        return None
+    keepset = set(keep)
+    gm = nx.algorithms.isomorphism.GraphMatcher(
+        rcg, rcg, node_match=lambda a, b: a.get("typesGH") == b.get("typesGH"), edge_match=lambda a, b: a.get("order") == b.get("order"))
+    group = []
+    for sigma in gm.isomorphisms_iter():
+        group.append(sorted([int(x), int(y)] for x, y in sigma.items() if x in keepset))
+        if len(group) > PRUNE_MAX_GROUP:
+            return None
+
+    def enc(ms):
+        return [sorted([int(a), int(b)] for a, b in m.items()) for m in ms]
+
+    rec = {"keep": sorted(int(x) for x in keep), "group": group, "raw_ordered": enc(raw), "calls": []}
+    if kept is not None:
+        rec["calls"].append({"max_group": 5040, "via": "reactor.mappings", "kept_ordered": enc(kept)})
+    for g in sorted({0, max(len(group) - 1, 0), len(group)}):
+        try:
+            ku = prune([dict(m) for m in raw], rcg, list(keep), max_group=g)
+            rec["calls"].append({"max_group": g, "via": "direct call", "kept_ordered": enc(ku)})
+        except RC.CaseTimeout:
+            raise
+        except Exception as e:  # noqa: BLE001 - an exception of the routine is an outcome the model has too (KeyError / ValueError)
+            rec["calls"].append({"max_group": g, "via": "direct call", "raised": type(e).__name__})
+    return rec
+
+
 def _history_step(sr, std, step, rules):
     """One SynReactor query.  -> {status, results, results_raw, n_raw, n_map}"""
     from synkit.IO.chem_converter import rsmi_to_its
@@ -1400,6 +1466,7 @@ def _history_step(sr, std, step, rules):
     else:
         sr.SubgraphSearchEngine = Recorder
     pruned_error = None
+    maps = None
     try:
         try:
             maps = reactor.mappings
@@ -1466,6 +1533,11 @@ def _history_step(sr, std, step, rules):
                 raise
             except Exception as e:  # noqa: BLE001
                 out["overflow"] = "raised:" + type(e).__name__
+        # the routine against its model: inputs / outputs of the pruning of this step (gate model-prune in run_histories)
+        if prune is not None and len(raw) >= 2 and patterns and patterns[0] is not None and step.get("model_prune", True):
+            out["prune"] = _prune_record(reactor, patterns[0], raw, None if (pruned_error or maps is None) else [dict(m) for m in maps], prune)
+            if out["prune"] is None:
+                out["prune_skipped"] = True
     return out
 
 
@@ -1668,6 +1740,85 @@ def eval_histories(pool, histories, timeout, tag="h"):
     return results
 
 
+def model_prune_gate(ctx, pool, histories, results, timeout, stream, shrink=True):
+    """Gate model-prune: what `_prune_by_rule_automorphisms` keeps == what the Lean model `pruneWithCap` keeps (`rinv.prune_partial`), as
+    ordered lists, on the automorphism group and the raw matches (partial ones included) recorded in the step.  -> number of differences"""
+    jobs, reqs = [], []
+    for hi, res in enumerate(results):
+        for si, r in enumerate(res["steps"]):
+            if r.get("prune_skipped"):
+                ctx.count(f"{stream}:model_prune:step_not_encodable_or_beyond_the_size_bounds")
+            pr = r.get("prune")
+            if not pr:
+                continue
+            for c in pr["calls"]:
+                jobs.append((hi, si, c))
+                reqs.append(dict(cmd="rinv.prune_partial", keep=pr["keep"], group=pr["group"], matches=pr["raw_ordered"], max_group=c["max_group"]))
+    if not reqs:
+        return 0
+    answers = ctx.lean().ok(reqs, shards=8)
+    diffs = []
+    for (hi, si, c), ans in zip(jobs, answers):
+        pr = results[hi]["steps"][si]["prune"]
+        npat = len(pr["keep"])
+        has_partial = any(len(m) < npat for m in pr["raw_ordered"])
+        ctx.count(f"{stream}:model_prune:calls_compared")
+        ctx.count(f"{stream}:model_prune:via " + c["via"])
+        if has_partial:
+            ctx.count(f"{stream}:model_prune:calls_with_partial_matches_among_the_raw_matches")
+        ctx.count(f"{stream}:model_prune:bound " + ("below" if c["max_group"] < len(pr["group"]) else "at or above") + " the group size")
+        impl = ("raised", c["raised"]) if "raised" in c else ("ok", c["kept_ordered"])
+        model = ("ok", ans["kept"]) if ans["status"] == "ok" else ("raised", ans["status"])
+        if impl[0] == "ok" and len(impl[1]) < len(pr["raw_ordered"]):
+            ctx.count(f"{stream}:model_prune:calls_where_the_routine_removed_matches")
+            if has_partial:
+                ctx.count(f"{stream}:model_prune:calls_where_the_routine_removed_matches_next_to_partial_ones")
+        if impl[0] == "raised":
+            ctx.count(f"{stream}:model_prune:routine_raised:" + impl[1])
+        if impl != model:
+            diffs.append((hi, si, c, model))
+    if not diffs:
+        return 0
+    # classify by the specification: is what the routine kept an admissible pruning (PruneSpec)?
+    sreqs = [dict(cmd="rinv.prune_spec", keep=results[hi]["steps"][si]["prune"]["keep"], group=results[hi]["steps"][si]["prune"]["group"],
+                  matches=results[hi]["steps"][si]["prune"]["raw_ordered"], kept=c.get("kept_ordered", []))
+             for hi, si, c, _ in diffs]
+    specs = ctx.lean().ok(sreqs)
+    reported = set()
+    for (hi, si, c, model), spec_ok in zip(diffs, specs):
+        if (hi, si) in reported or len(ctx.violations) >= 5:
+            continue
+        reported.add((hi, si))
+        h, pr = histories[hi], results[hi]["steps"][si]["prune"]
+        spec_ok = bool(spec_ok) and "raised" not in c
+        prefix = h[:si + 1]
+        if shrink and si:
+            # the routine is a static method of its arguments: try the failing query alone in a fresh process
+            rr = eval_histories(pool, [[h[si]]], timeout, "m")[0]["steps"][0]
+            if rr.get("prune") and any(cc["max_group"] == c["max_group"] and cc["via"] == c["via"] and cc.get("kept_ordered") == c.get("kept_ordered")
+                                       and cc.get("raised") == c.get("raised") for cc in rr["prune"]["calls"]) \
+                    and rr["prune"]["raw_ordered"] == pr["raw_ordered"] and rr["prune"]["group"] == pr["group"]:
+                prefix = [h[si]]
+        npat = len(pr["keep"])
+        detail = {"stream": stream, "gate": "model-prune", "call": c["via"], "max_group": c["max_group"], "pattern_nodes": pr["keep"],
+                  "rule_automorphisms_on_the_pattern": pr["group"], "raw_matches": pr["raw_ordered"],
+                  "partial_raw_matches": sum(1 for m in pr["raw_ordered"] if len(m) < npat),
+                  "routine": {"raised": c["raised"]} if "raised" in c else {"kept": c["kept_ordered"]},
+                  "model(pruneWithCap)": {"raised": model[1]} if model[0] == "raised" else {"kept": model[1]},
+                  "PruneSpec(sub-list; every raw match kept or related to a kept one by rule automorphisms; partial matches kept)": spec_ok,
+                  "failing_step": len(prefix) - 1, "template": prefix[-1]["template"], "substrate": prefix[-1]["substrate"]}
+        if spec_ok:
+            ctx.violation("correspondence broken: SynReactor._prune_by_rule_automorphisms keeps other matches than the model ReactorInv.pruneWithCap "
+                          "on the same rule automorphisms and raw matches (what it keeps still is an admissible pruning: PruneSpec holds)",
+                          {"kind": "reactor-history", "steps": prefix}, detail, no_input=True)
+        else:
+            ctx.violation("the symmetry pruning of rule application " + ("raises" if "raised" in c else "does not keep an admissible selection of the raw "
+                          "matches: a dropped match (a partial one, or one with no kept match related to it by an automorphism of the rule) or an "
+                          "invented / reordered one") + "; the model ReactorInv.pruneWithCap differs on the same inputs",
+                          {"kind": "reactor-history", "steps": prefix}, detail)
+    return len(reported)
+
+
 def run_histories(ctx, pool, histories, timeout, stream, shrink=True):
     """histories: list of step lists"""
     results = eval_histories(pool, histories, timeout, stream)
@@ -1752,6 +1903,10 @@ def run_histories(ctx, pool, histories, timeout, stream, shrink=True):
             break
         if len(ctx.violations) >= 5:
             break
+    if len(ctx.violations) < 5:
+        nbad = model_prune_gate(ctx, pool, histories, results, timeout, stream, shrink)
+        ctx.extra["model_prune_differences"] = ctx.extra.get("model_prune_differences", 0) + nbad
+        bad += nbad
     return bad
 
 
@@ -2416,6 +2571,9 @@ def run(ctx):
         "set from gluing every raw match through the reactor's own internals (_mappings := raw matches recorded at SubgraphSearchEngine); trusted: "
         "Standardize.fit / RDKit canonical SMILES as the notion of 'distinct reaction', harness/reactor_inv_common.py (rewriting, time-out), "
         "one fresh forked process per history; its Lean side (pruning by rule automorphisms loses no result) is C05's",
+        "gate model-prune: the rule automorphisms handed to the model are enumerated by the harness with the same NetworkX GraphMatcher call the "
+        "pruning routine makes (VF2 is external to both); Driver/ReactorInv.lean JSON codec (`rinv.prune_partial`, `rinv.prune_spec`); pattern, "
+        "rule and substrate node ids are naturals (atom-map numbers / atom indices)",
     ]
     ctx.assumptions = [
         "graphs are simple undirected NetworkX graphs (nx.Graph, no self-loops; a DiGraph makes the exact analysis raise NetworkXError in "
@@ -2468,7 +2626,8 @@ def run(ctx):
                     "x random order of reading the 7 exact and 8 estimate views x max_iter as above.  Dedup call forms (35% of the dedup cases): "
                     "matches as list/tuple/iterator x orbit container list/tuple/iterator x orbit as frozenset/set/tuple/list x anchor as "
                     "frozenset/set x host_anchor absent / random subset of host nodes / all host nodes.  Pruning fall-back: every reactor step "
-                    "with >= 2 raw matches, max_group=0.  Stream reactor-partial (24 histories quick / 400 thorough): half corpus pairs whose "
+                    "with >= 2 raw matches, max_group=0; the same steps, gate model-prune: the routine's kept list under the default bound and under "
+                    "max_group in {0, |group| - 1, |group|} (steps with <= 200 raw matches and <= 60 rule automorphisms).  Stream reactor-partial (24 histories quick / 400 thorough): half corpus pairs whose "
                     "pattern has >= 2 components, half generated symmetric-skeleton rules; histories as in stream reactor, each step "
                     "partial=True with probability 0.8; reference of a partial step: every match of PartialMatcher(prune_auto=False).  "
                     "Streams repr* (last; quick: 772 + 1100 graphs, 100 sessions, 200 dedup calls): every labelled graph on <= 4 nodes once more with "
@@ -2687,6 +2846,9 @@ def _run_streams(ctx):
         stamp("reactor-partial")
     ctx.obligation("rule application with partial=True (matches, partial ones included, from PartialMatcher): the result set with pruning equals the "
                    "set obtained from every match of PartialMatcher(prune_auto=False) of the same query", len(ctx.violations) == nv2)
+    ctx.obligation("correspondence: SynReactor._prune_by_rule_automorphisms == model ReactorInv.pruneWithCap (rinv.prune_partial) as ordered lists, on "
+                   "the rule automorphisms and raw matches of every reactor step with >= 2 raw matches - partial matches included (stream "
+                   "reactor-partial), default bound and max_group in {0, |group| - 1, |group|}", not ctx.extra.get("model_prune_differences"))
 
     _run_repr_streams(ctx, dcases, stamp)
 
